@@ -140,7 +140,8 @@ func (f *Frame) evalCall1(st *State, call *ast.CallExpr, before *Val, countKey s
 		v := f.eval(st, call.Args[0])
 		return []Val{f.bigAlloc(st, v.T)}
 	}
-	if isLoggingCall(key) {
+	if isLoggingCall(key) || isMutexCall(key) {
+		// logging and mutex operations have no effect on the tracked (sequential) state
 		f.c.dropped[key] = true
 		return f.havocResults(st, call)
 	}
@@ -214,6 +215,20 @@ func (f *Frame) forcedInline(fn *types.Func) bool {
 	for _, n := range f.c.contract.Inline {
 		if n == fn.Name() {
 			return true
+		}
+	}
+	return false
+}
+
+// isMutexCall: Lock/Unlock/RLock/RUnlock of sync and go-deadlock mutexes (also when promoted through an
+// embedded field). Concurrency is outside the model; the calls are dropped and listed in evidence.
+func isMutexCall(key string) bool {
+	for _, p := range []string{"sync.Mutex.", "sync.RWMutex.", "github.com/algorand/go-deadlock.Mutex.", "github.com/algorand/go-deadlock.RWMutex."} {
+		if strings.HasPrefix(key, p) {
+			switch key[len(p):] {
+			case "Lock", "Unlock", "RLock", "RUnlock":
+				return true
+			}
 		}
 	}
 	return false
